@@ -25,6 +25,7 @@ type Env struct {
 	allocOld string // value of alloc counter in old state (for fresh())
 	fnForLocals *ssa.Function
 	inOld bool
+	calleeView bool // translating a callee's contract at a call site (atlock.go)
 	oldVars map[string]*Val // values of captured variables in the old state (call-site view of closure contracts)
 }
 
@@ -613,6 +614,8 @@ func (e *Env) call(n *ast.CallExpr) *Val {
 			t = b.Typ
 		}
 		return &Val{T: ite(c.T, a.T, b.T), Typ: t}
+	case "atlock":
+		return e.trAtlock(n)
 	case "old":
 		ne := *e
 		if e.old != nil {
